@@ -64,49 +64,55 @@ Print Assumptions C14_copy_within.
     overflow checks - modelled, observed, outside the property's quantifier) *)
 Theorem C14_copy_within_rejects :
   forall oc v b (x0 y0 x1 y1 dx dy : N),
-  (dx + (x1 - x0) < W)%N -> (dy + (y1 - y0) < W)%N ->
   ~ ((x0 <= x1)%N /\ (y0 <= y1)%N /\ (x1 <= N.of_nat (vcols v))%N /\ (y1 <= N.of_nat (vrows v))%N /\
      (dx + (x1 - x0) <= N.of_nat (vcols v))%N /\ (dy + (y1 - y0) <= N.of_nat (vrows v))%N) ->
   op_copy_within oc v b x0 y0 x1 y1 dx dy = Panic.
 Proof. exact op_copy_within_reject. Qed.
 Print Assumptions C14_copy_within_rejects.
 
-(** ... and destination corners of ANY magnitude, sums of 2^64 and more included (they wrap
-    onto in-range values when overflow checks are off): a non-empty source rectangle whose
-    destination does not fit is rejected with a panic in both build modes - possibly after
-    some rows were copied - and no cell outside the receiver changes *)
+(** ... and the binary-number path of the model (destination corners of ANY magnitude, sums
+    of 2^64 and more included): a call whose rectangles do not fit - empty source or not - is
+    rejected in both build modes before anything is written.  (Before the D14 repair the
+    sums wrapped without overflow checks: a zero-area source was then accepted silently and
+    a non-empty one panicked only after some rows had been copied.) *)
 Theorem C14_copy_within_far_corner_rejected :
-  forall v, wf_view v -> forall oc b (x0 y0 x1 y1 dx dy : N),
-  fits v b ->
-  (x0 < x1)%N -> (y0 < y1)%N -> (x1 <= N.of_nat (vcols v))%N -> (y1 <= N.of_nat (vrows v))%N ->
-  (N.of_nat (vcols v) < W)%N -> (N.of_nat (vrows v) < W)%N -> (dx < W)%N -> (dy < W)%N ->
-  ~ ((dx + (x1 - x0) <= N.of_nat (vcols v))%N /\ (dy + (y1 - y0) <= N.of_nat (vrows v))%N) ->
-  exists b', op_copy_within_w oc v b x0 y0 x1 y1 dx dy = Ok (true, b') /\
-    length b' = length b /\ forall i, ~ in_view v i -> nth_error b' i = nth_error b i.
+  forall v oc b (x0 y0 x1 y1 dx dy : N),
+  ~ ((x0 <= x1)%N /\ (y0 <= y1)%N /\ (x1 <= N.of_nat (vcols v))%N /\ (y1 <= N.of_nat (vrows v))%N /\
+     (dx + (x1 - x0) <= N.of_nat (vcols v))%N /\ (dy + (y1 - y0) <= N.of_nat (vrows v))%N) ->
+  op_copy_within_w oc v b x0 y0 x1 y1 dx dy = Ok (true, b).
 Proof. exact op_copy_within_w_rejects. Qed.
 Print Assumptions C14_copy_within_far_corner_rejected.
+
+(** whatever the row loop does, it never touches a cell outside the receiver *)
+Theorem C14_copy_within_rows_frame :
+  forall v, wf_view v -> forall oc down off_ sx0 sx1 dx e0 rs b,
+  fits v b -> Forall (fun r => r < vrows v) rs -> sx0 <= sx1 -> sx1 <= vcols v ->
+  exists p b', copy_within_rows_w oc v rs down off_ sx0 sx1 dx e0 b = Ok (p, b') /\
+    length b' = length b /\ forall i, ~ in_view v i -> nth_error b' i = nth_error b i.
+Proof. exact rows_w_frame. Qed.
+Print Assumptions C14_copy_within_rows_frame.
 
 (** the binary-number path is the plain one wherever that one returns, so it models
     copy_within for all arguments: C14_copy_within (and the frame / same-as-owned theorems of
     C04) describe what it does when the destination fits, the theorem above when it does not *)
 Theorem C14_copy_within_any_magnitude_agrees :
   forall oc v b b' (x0 y0 x1 y1 dx dy : N),
-  (N.of_nat (vrows v) < W)%N -> (dx + (x1 - x0) < W)%N -> (dy + (y1 - y0) < W)%N ->
+  (N.of_nat (vrows v) < W)%N ->
   op_copy_within oc v b x0 y0 x1 y1 dx dy = Ok b' ->
   op_copy_within_w oc v b x0 y0 x1 y1 dx dy = Ok (false, b').
 Proof. exact op_copy_within_w_agrees. Qed.
 Print Assumptions C14_copy_within_any_magnitude_agrees.
 
-(** non-vacuity: on a 4x3, rows 0..2 to row usize::MAX without overflow checks: the row
-    sum wraps to 1, row 1 is copied onto row 0, then the call panics; with overflow checks
-    nothing is copied *)
+(** non-vacuity: on a 4x3, destination corners at usize::MAX (sums of 2^64 + 1), with and
+    without overflow checks, and a zero-area source *)
 Example C14_far_corner_example :
   let v := view_of_owned 4 3 12 in
   let b := map N.of_nat (seq 0 12) in
-  op_copy_within_w false v b 0 0 2 2 0 18446744073709551615
-    = Ok (true, map N.of_nat [4; 5; 2; 3; 4; 5; 6; 7; 8; 9; 10; 11]) /\
+  op_copy_within_w false v b 0 0 2 2 0 18446744073709551615 = Ok (true, b) /\
   op_copy_within_w true v b 0 0 2 2 0 18446744073709551615 = Ok (true, b) /\
-  op_copy_within_w false v b 0 0 2 1 18446744073709551615 1 = Ok (true, b).
+  op_copy_within_w false v b 0 0 2 1 18446744073709551615 1 = Ok (true, b) /\
+  op_copy_within_w false v b 0 0 2 0 18446744073709551615 0 = Ok (true, b) /\
+  op_copy_within_w false v b 1 0 3 2 2 1 = Ok (false, map N.of_nat [0; 1; 2; 3; 4; 5; 1; 2; 8; 9; 5; 6]).
 Proof. repeat split; vm_compute; reflexivity. Qed.
 
 (** non-vacuity: a down-left overlapping copy on a 6x6 *)
